@@ -92,6 +92,7 @@ def correspond(ctx):
     stat = {}
     def bump(k): stat[k] = stat.get(k, 0) + 1
     chol2_fail = []
+    unknown_far = []
     evals = 0
     verified = 0
     for kind, pr, li in insts:
@@ -146,8 +147,8 @@ def correspond(ctx):
                     if not near and chol2_case and ent in ('conelp', 'lp', 'socp', 'sdp', 'coneqp', 'qp'):
                         bump('chol2-cases:failed:' + ('qp' if tag.split(' ')[0] in ('coneqp', 'qp') else 'lp')); chol2_fail.append(("%s ended 'unknown' (G alone is rank deficient, [G; A] is not)" % tag, desc))
                     elif not near:
-                        ctx.violation('c05:unknown-on-solvable:%s' % ent, "%s ended 'unknown' far from convergence on a strictly feasible planted instance "
-                                      '(pres %r dres %r gap %r, %r iterations)' % (tag, r.get('primal infeasibility'), r.get('dual infeasibility'), r.get('gap'), r.get('iterations')), desc)
+                        unknown_far.append((ent, "%s ended 'unknown' far from convergence on a strictly feasible planted instance "
+                                      '(pres %r dres %r gap %r, %r iterations)' % (tag, r.get('primal infeasibility'), r.get('dual infeasibility'), r.get('gap'), r.get('iterations')), desc))
                 else:
                     ctx.violation('c05:wrong-class:%s:%s' % (ent, st.replace(' ', '-')), "%s reported %r on a problem with a strictly feasible primal-dual pair" % (tag, st), desc)
             elif kind == 'pinf':
@@ -174,6 +175,14 @@ def correspond(ctx):
             ctx.violation('c05:paths-disagree', 'primal objectives of the solver paths differ: %r' % [(t, v) for t, v in got], desc)
     # the listed finding (kkt_chol2 on a rank-deficient G) concerns occasional instances - those where the first Cholesky factorisation of the
     # singular matrix happens to succeed; if the default solver fails on most such instances something else is wrong
+    # 'unknown' far from convergence on a solvable problem: the listed finding for cpl concerns a few percent of the runs; more than a quarter
+    # of the runs of an entry point is something else
+    for ent in sorted({e for e, _, _ in unknown_far}):
+        items = [(w, d_) for e, w, d_ in unknown_far if e == ent]
+        total = sum(v for k, v in stat.items() if k.split(':')[0] in ('optimal', 'qp') and k.split(':')[1] == ent and not k.startswith('time'))
+        syst = len(items) >= 8 and len(items) > 0.25 * max(total, 1)
+        for w, d_ in items:
+            ctx.violation('c05:unknown-on-solvable:%s%s' % (ent, ':systematic' if syst else ''), w + (' [%d of %d runs]' % (len(items), total) if syst else ''), d_)
     systematic = False
     for fam in ('lp', 'qp'):
         npaths, nfail = stat.get('chol2-cases:paths:' + fam, 0), stat.get('chol2-cases:failed:' + fam, 0)
